@@ -4,6 +4,7 @@ import (
 	"fmt"
 	"go/token"
 	"go/types"
+	"strings"
 
 	"golang.org/x/tools/go/ssa"
 
@@ -86,6 +87,8 @@ func runC02(p *core.Prog, r *core.Report) {
 	r.Rule("C02-R1", "exactly one Write on the destination field on every normal path of Handle; the destination field is touched nowhere else except constructor/clone copies", 6)
 	r.Rule("C02-R2", "the Write happens while the handler's mutex is held (must-lockset); every handler created by a derivation method inherits the receiver's mutex; only root constructors allocate a mutex", 9)
 	r.Rule("C02-R3", "every call of Handler.Handle outside the handlers is guarded by Enabled(level) of the same handler with the level that goes into the record", 5)
+	r.Rule("C02-R5", "outside the mutex Handle writes only memory private to the call: no store through the receiver, no append into a slice owned by the receiver (its spare capacity is shared), no call that does (same analysis as C03-R1, read for concurrency)", 3)
+	ma2 := newMutAnalysis(p)
 	r.Rule("C02-R4", "the line buffer is private to one Handle call (never stored, sent, returned or given to a goroutine), released exactly once, truncated to length 0 on every path into the pool; the slice written is that buffer", 9)
 	r.NotDecided = append(r.NotDecided,
 		"that the destination io.Writer does not retain or modify the slice (io.Writer contract)",
@@ -268,6 +271,14 @@ func runC02(p *core.Prog, r *core.Report) {
 
 		// ---- R4: private buffer in Handle
 		checkPrivateBuffers(p, r, h, handle)
+		// ---- R5: what Handle writes to besides that buffer is not shared with a concurrent Handle call either
+		if len(handle.Params) > 0 {
+			var bad []string
+			for _, f := range ma2.analyse(handle, map[ssa.Value]string{handle.Params[0]: tPtr}) {
+				bad = append(bad, f.msg+" at "+f.pos)
+			}
+			r.Check(len(bad) == 0, "C02-R5", h.Name+".Handle writes no memory owned by the handler", p.FuncPos(handle), "no store, in-place append or mutating call reaches memory reachable from the receiver (scratch space comes from a pool or is local)", "concurrent Handle calls of this handler (and of the handlers derived from it) run this unlocked and would write the same memory: "+strings.Join(uniq(bad), "; "))
+		}
 	}
 
 	// ---- R3 (converse): an exported Logger method loses a record only through Enabled(level) == false
@@ -652,8 +663,10 @@ func poolFuncs(p *core.Prog, rel string) (getters, releasers map[*ssa.Function]b
 
 func checkPrivateBuffers(p *core.Prog, r *core.Report, h *handlerInfo, handle *ssa.Function) {
 	getters, releasers := poolFuncs(p, "logger")
-	if len(getters) < 2 || len(releasers) < 2 {
-		r.Fail("C02-R4", "anchor-shrunk pool functions", "-", fmt.Sprintf("found %d pool getters / %d releasers in package logger, expected 2/2", len(getters), len(releasers)))
+	// the reference tree has two pools (line buffers, group prefixes); one pool serving both, or one releaser shared by
+	// both, is as good — what must exist is the pool the written buffer comes from (checked below per Write)
+	if len(getters) < 1 || len(releasers) < 1 {
+		r.Fail("C02-R4", "anchor-shrunk pool functions", "-", fmt.Sprintf("found %d pool getters / %d releasers in package logger, expected at least 1/1", len(getters), len(releasers)))
 	}
 	// releasers truncate on every path into the pool
 	for rel := range releasers {
